@@ -166,25 +166,21 @@ Proof. unfold obj_del. apply (akeys_aremove_In String.eqb). Qed.
 
 Definition xl (m : option (list (string * string))) : list (string * string) := match m with Some l => l | None => [] end.
 
-Definition set_names (xs : list (string * option string)) : list string :=
-  map fst (filter (fun kv => is_some (snd kv)) xs).
-
 Lemma apply_xattrs_names xs : forall m ms c b o, apply_xattrs xs m ms c b = inl o ->
-  forall x, In x (map fst (xl o)) -> In x (map fst (xl m)) \/ In x (set_names xs).
+  forall x, In x (map fst (xl o)) -> In x (map fst (xl m)) \/ In x (map fst xs).
 Proof.
-  unfold set_names.
   induction xs as [|[k [v|]] rest IH]; intros m ms c b o Hap x Hin; cbn in Hap.
   - inversion Hap; subst. auto.
   - destruct (jparse v) as [j|]; [|discriminate].
     destruct (match ms with [] => inl j | _ :: _ => match j with JObj _ => expand_macros k j ms c b | _ => inr EOther end end) as [j2|e]; [|discriminate].
     destruct (IH _ _ _ _ _ Hap x Hin) as [H1|H1].
-    + cbn in H1. apply obj_set_names in H1. destruct H1 as [->|H1]; [right; left; reflexivity | left; exact H1].
+    + cbn in H1. apply obj_set_names in H1. destruct H1 as [->|H1]; [right; left; reflexivity | left; destruct m; exact H1].
     + right; right; exact H1.
   - destruct m as [l|]; [|discriminate].
     destruct (obj_get k l); [|discriminate].
     destruct (IH _ _ _ _ _ Hap x Hin) as [H1|H1].
     + cbn in H1. apply obj_del_names in H1. left; exact H1.
-    + right; exact H1.
+    + right; right; exact H1.
 Qed.
 
 Lemma any_order_inl xs m ms c b o : apply_xattrs_any_order xs m ms c b = inl o -> apply_xattrs xs m ms c b = inl o.
@@ -197,26 +193,13 @@ Proof.
   - apply existsb_exists. exists x. split; [auto | apply String.eqb_refl].
 Qed.
 
-Lemma set_names_app_dels xs d x : In x (set_names (xs ++ dels_of d)) -> In x (map fst xs).
-Proof.
-  unfold set_names. rewrite filter_app, map_app, in_app_iff. intros [H|H].
-  - apply in_map_iff in H. destruct H as (kv & <- & Hk). apply filter_In in Hk. apply in_map. apply Hk.
-  - exfalso. apply in_map_iff in H. destruct H as (kv & _ & Hk). apply filter_In in Hk. destruct Hk as [Hk1 Hk2].
-    unfold dels_of in Hk1. apply in_map_iff in Hk1. destruct Hk1 as (k & <- & _). discriminate.
-Qed.
-
-Lemma fresh_xattrs_subset xs d ms c b o :
-  apply_xattrs_any_order (xs ++ dels_of d) None ms c b = inl o -> subset_names (map fst (xlist (xmarshal o))) (map fst xs) = true.
+Lemma fresh_xattrs_subset xs ms c b o :
+  apply_xattrs_any_order xs None ms c b = inl o -> subset_names (map fst (xlist (xmarshal o))) (map fst xs) = true.
 Proof.
   intros H. apply any_order_inl in H. apply subset_names_spec. intros x Hx.
-  destruct (apply_xattrs_names _ None ms c b o H x) as [[]|H1].
-  - destruct o; exact Hx.
-  - eapply set_names_app_dels; eauto.
+  destruct (apply_xattrs_names xs None ms c b o H x) as [[]|H1]; [|exact H1].
+  destruct o; exact Hx.
 Qed.
-
-Lemma fresh_xattrs_subset0 xs ms c b o :
-  apply_xattrs_any_order xs None ms c b = inl o -> subset_names (map fst (xlist (xmarshal o))) (map fst xs) = true.
-Proof. intros H. apply (fresh_xattrs_subset xs None ms c b o). cbn. rewrite app_nil_r. exact H. Qed.
 
 Lemma system_only_xlist x0 :
   xs_eqb (xlist (xattrs_system_only x0)) (filter (fun kv : string * string => is_system_name (fst kv)) (xlist x0)) = true.
@@ -225,29 +208,3 @@ Proof.
   destruct (filter (fun kv : string * string => is_system_name (fst kv)) m) eqn:E; cbn -[xs_eqb]; apply xs_eqb_refl.
 Qed.
 
-Theorem C17_row_sound : rc_sound chk_row_C17.
-Proof. start_rc. all: unfold chk_row_C17; fin. Qed.
-
-Theorem C08_row_sound : rc_sound chk_row_C08.
-Proof. start_rc. all: unfold chk_row_C08; fin. Qed.
-
-Theorem C01_row_sound : rc_sound chk_row_C01.
-Proof. start_rc. all: unfold chk_row_C01; fin. Qed.
-
-Theorem C02_row_sound : rc_sound chk_row_C02.
-Proof. start_rc. all: unfold chk_row_C02; fin. Qed.
-
-Theorem C05_row_sound : rc_sound chk_row_C05.
-Proof.
-  start_rc. all: unfold chk_row_C05; fin.
-  all: try apply system_only_xlist.
-  all: try match goal with H : apply_xattrs_any_order (?xs ++ dels_of ?d) _ ?ms ?c ?b = inl ?o |- _ => exact (fresh_xattrs_subset xs d ms c b o H) end.
-  all: try match goal with H : apply_xattrs_any_order ?xs _ ?ms ?c ?b = inl ?o |- _ => exact (fresh_xattrs_subset0 xs ms c b o H) end.
-  all: match goal with |- ?G => idtac "GOAL" G end.
-Qed.
-
-Theorem C06_row_sound : rc_sound chk_row_C06.
-Proof. start_rc. all: unfold chk_row_C06; fin. Qed.
-
-Theorem C07_row_sound : rc_sound chk_row_C07.
-Proof. start_rc. all: unfold chk_row_C07; fin. Qed.
